@@ -15,6 +15,7 @@
 package main
 
 import (
+	"bytes"
 	"crypto/sha256"
 	"encoding/json"
 	"flag"
@@ -434,6 +435,11 @@ func (st *state) delOf(m int, uid uint32) bool {
 type world struct {
 	h *srvkit.Harness
 	c []*srvkit.Pipe
+	// carry: what an idling session's connection had produced beyond the continuation request when
+	// the IDLE step was read. The idle goroutine writes of its own accord (a server may flush what is
+	// pending when IDLE starts), so how much of it is there at that moment is a matter of timing;
+	// everything written between "+" and the completion of DONE is judged together at DONE, in order.
+	carry map[*srvkit.Pipe][]byte
 }
 
 func newWorld(k int) *world {
@@ -486,6 +492,19 @@ func (w *world) sendOn(p *srvkit.Pipe, raw string) (out []byte, resps []srvkit.R
 	out, closed, err := p.Quiesce()
 	if err != nil {
 		run.EngineError("watchdog waiting for the answer to %q (got %q)", raw, out)
+	}
+	if c := w.carry[p]; len(c) > 0 {
+		out = append(append([]byte{}, c...), out...)
+		delete(w.carry, p)
+	}
+	if !closed && strings.HasSuffix(raw, " IDLE\r\n") && bytes.HasPrefix(out, []byte("+")) {
+		if i := bytes.Index(out, []byte("\r\n")); i >= 0 && i+2 < len(out) {
+			if w.carry == nil {
+				w.carry = map[*srvkit.Pipe][]byte{}
+			}
+			w.carry[p] = append([]byte{}, out[i+2:]...)
+			out = out[:i+2]
+		}
 	}
 	resps, rest, perr := srvkit.ParseResponses(out)
 	if perr != nil || (len(rest) > 0 && !closed) {
